@@ -3,7 +3,7 @@ import XV.Props.C15
 C15, initialisation — the tree `InitQCTree` builds from a ledger.
 
 `XV.QcTree.initQCTree chain start tip` is the model of `common.InitQCTree(startHeight, ledger, log)`
-(kernel/consensus/base/common/common.go after the `fix:` commit e280267) over a ledger whose main
+(kernel/consensus/base/common/common.go after the `fix:` commit c73d582) over a ledger whose main
 chain holds the blocks of the heights `0..tip`; `chain h` is the id of the block of height `h`.
 The only assumption is that the world `W` (content of every proposal id) agrees with the ledger
 (`LedgerWorld`: block `h` has view `h` and parent `chain (h-1)`), plus `Acyclic W` where the theorems
@@ -449,7 +449,7 @@ end init
 
 /-! ### the code as found -/
 
-/-- `InitQCTree` before the `fix:` commit e280267: with the tip exactly at the start height the tree
+/-- `InitQCTree` before the `fix:` commit c73d582: with the tip exactly at the start height the tree
 was the bare genesis QC (block `start - 1`) -/
 def initAsFound (chain : Nat → Nat) (start tip : Nat) : Option St :=
   if start = 0 ∨ tip + 1 < start then none
